@@ -4,7 +4,7 @@ Independent of streamflow.cwl.utils.remap_path: no os.path.relpath, no path_proc
 
 Semantics used (the same reading `streamflow.cwl.utils.get_path_from_token` and cwltool use):
   * `path` (and a scheme-less `location`) is a plain filesystem path: every character is literal,
-    in particular `%41` is the four... three characters `%`,`4`,`1`;
+    in particular `%41` is the three characters `%`,`4`,`1`;
   * a `file://` location is a URI: its path is percent-encoded, `decode(loc) = unquote(loc[7:])`,
     canonical form `file://` + urllib.parse.quote(path) (what get_file_token creates);
   * any other scheme (`http://`, `s3://`, ...) is not a local file and must come back unchanged.
@@ -132,8 +132,9 @@ def classify_roundtrip(s: str, got: str, old: str, new: str):
         if got == "file://" + p1 and urllib.parse.quote(p1) != p1:
             # right file, only the quoting was lost
             return "C32/location-not-requoted"
-        if PCT_HEX.search(p1):
-            # the raw result of the first remap was percent-decoded again by the second one
+        if PCT_HEX.search(move(p1, old, new)):
+            # the raw (unquoted) result of the first remap still contains %XX (from the file name or
+            # from `new`) and was percent-decoded again by the second remap
             return "C32/location-decoded-twice"
         return None
     if not is_other_url(s) and (PCT_HEX.search(s) or PCT_HEX.search(old) or PCT_HEX.search(new)):
